@@ -176,7 +176,86 @@ class RegEnRstTop(Component):
     s.r.in_ //= s.in_; s.r.en //= s.en; s.out //= s.r.out
 
 
+@bitstruct
+class Grid:
+  tag: Bits3
+  g: [[Bits4] * 3] * 2
+  h: [Bits2] * 3
+
+
+class StructListReg(Component):
+  """struct-typed register with multi-dimensional (non-square) and 1-D list fields"""
+  def construct(s):
+    s.in_ = InPort(Grid); s.en = InPort(); s.out = OutPort(Grid); s.pick = OutPort(4)
+    s.r = Wire(Grid)
+    s.out //= s.r
+    s.pick //= s.r.g[1][2]
+    @update_ff
+    def ff_grid():
+      if s.en: s.r <<= s.in_
+
+
+class NegLiteral(Component):
+  """registers assigned negative and boundary Python ints"""
+  def construct(s):
+    s.sel = InPort(2); s.out = OutPort(8); s.b = OutPort(1)
+    s.r = Wire(8); s.q = Wire(1)
+    s.out //= s.r; s.b //= s.q
+    @update_ff
+    def ff_neg():
+      if s.sel == 0:   s.r <<= -1
+      elif s.sel == 1: s.r <<= -128
+      elif s.sel == 2: s.r <<= 255
+      else:            s.r <<= s.r + 1
+      s.q <<= -1
+
+
+class TwoRegsPlusChild(Component):
+  """a component owning two registers plus a direct child owning exactly one (and a grandchild owning one)"""
+  def construct(s):
+    s.in_ = InPort(8); s.o1 = OutPort(8); s.o2 = OutPort(8); s.o3 = OutPort(8); s.o4 = OutPort(8)
+    s.r1 = Wire(8); s.r2 = Wire(8)
+    s.child = Stage()
+    s.mid = ShiftChain(1)
+    s.child.in_ //= s.in_; s.mid.in_ //= s.child.out
+    s.o1 //= s.r1; s.o2 //= s.r2; s.o3 //= s.child.out; s.o4 //= s.mid.out
+    @update_ff
+    def ff_two():
+      s.r1 <<= s.in_ + 1
+      s.r2 <<= s.r1 ^ s.child.out
+
+
+class OneRegPlusTwoChildren(Component):
+  def construct(s):
+    s.in_ = InPort(8); s.out = OutPort(8)
+    s.a = Stage(); s.b = TwoRegsPlusChild()
+    s.r = Wire(8)
+    s.a.in_ //= s.in_; s.b.in_ //= s.a.out
+    @update_ff
+    def ff_one(): s.r <<= s.b.o2 + s.b.o4
+    s.out //= s.r
+
+
+class NoDataInputs(Component):
+  """no data input ports at all: a counter whose combinational logic depends on reset"""
+  def construct(s):
+    s.out = OutPort(8); s.nxt = Wire(8); s.cnt = Wire(8); s.flag = OutPort()
+    @update
+    def up_nxt():
+      if s.reset: s.nxt @= 0x55
+      else:       s.nxt @= s.cnt + 3
+      s.flag @= s.reset
+    @update_ff
+    def ff_cnt(): s.cnt <<= s.nxt
+    s.out //= s.cnt
+
+
 DESIGNS = {
+  'StructListReg': lambda: StructListReg(),
+  'NegLiteral': lambda: NegLiteral(),
+  'TwoRegsPlusChild': lambda: TwoRegsPlusChild(),
+  'OneRegPlusTwoChildren': lambda: OneRegPlusTwoChildren(),
+  'NoDataInputs': lambda: NoDataInputs(),
   'Swap': lambda: Swap(),
   'ShiftChain3': lambda: ShiftChain(3),
   'CondMulti': lambda: CondMulti(),
